@@ -1341,6 +1341,96 @@ theorem C11_heap_finished_filedata_ctor_is_pdu_ctor (conf params pdu : Addr) (s 
     subst e1 e2 e3
     exact ⟨_, _, h6⟩
 
+/-- C15 / C16: the service-1 report built for a telecommand (`create_<step>_tm(apid, tc, timestamp)`) — the report, its
+    `tc_req_id` with `PacketId` / `PacketSeqCtrl`, its `PusTm` and header — shares no cell with ANY object that existed
+    before (the telecommand in particular), to every depth -/
+theorem C15_heap_service1_separated (n : Nat) (s : Store) (hc : Closed s) (tc : Addr)
+    (hl : ∀ hdr, headerOf s tc = some hdr → KidsAreLeaves s hdr) (apid sub tsLen : Nat)
+    (tm : Addr) (s' : Store) (h : (service1FromTc tc apid sub tsLen).run s = some (tm, s')) (b : Addr) (hb : b < s.length) :
+    Disjoint (reachN n s' tm) (reachN n s' b) := by
+  unfold service1FromTc at h
+  obtain ⟨hdr, s1, h1, h2⟩ := (run_bind_some _ _ _ _ _).mp h
+  obtain ⟨⟨ct, hct, hr⟩, e⟩ := (ref_run _ _ _ _ _).mp h1
+  subst s1
+  obtain ⟨rid, s2, h3, h4⟩ := (run_bind_some _ _ _ _ _).mp h2
+  obtain ⟨ch, pid, psc, cp, cq, ver, hch, hpid, hpsc, _, hcp, hcq, rfl, rfl⟩ := reqIdFromSpHeader_shape s hdr rid s2 h3
+  have hql : psc < s.length := closed_kid_lt hc hch (kid_of_ref hpsc)
+  rw [List.getElem?_append_left hql] at hcq
+  have hlv := hl hdr (by simp [headerOf, hct, hr])
+  have hkp : cp.kids = [] := leaf_kids (hlv pid (by simp [hch, kid_of_ref hpid])) hcp
+  have hkq : cq.kids = [] := leaf_kids (hlv psc (by simp [hch, kid_of_ref hpsc])) hcq
+  simp [newPusTm, newSpHeader, newPacketId, newPsc, StateT.run_bind, new_run_eq] at h4
+  obtain ⟨rfl, rfl⟩ := h4
+  have hsplit : ∀ (t2 : Store), s ++ cp :: cq :: t2 = s ++ ([cp, cq] ++ t2) := fun _ => by simp
+  rw [hsplit]
+  apply C11_heap_fresh_disjoint n s _ _ b hc hb
+  · intro c hcm r hrk
+    rcases List.mem_append.mp hcm with hm | hm
+    · simp only [List.mem_cons, List.not_mem_nil, or_false] at hm
+      rcases hm with rfl | rfl
+      · simp [hkp] at hrk
+      · simp [hkq] at hrk
+    · have key : ∀ t2 : Store, (∀ c ∈ t2, ∀ r ∈ c.kids, s.length ≤ r) → c ∈ t2 → s.length ≤ r :=
+        fun t2 h hc' => h c hc' r hrk
+      refine key _ ?_ hm
+      first | (simp [Cell.kids]; done) | (simp [Cell.kids]; omega)
+  · first | omega | (simp; done) | (simp; omega)
+
+/-- C16: the key `PusVerificator.add_tc(tc)` files the telecommand under (a fresh `RequestId`) shares no cell with any
+    pre-existing object that does not reach the tracker itself — the telecommand in particular — and only the tracker cell
+    is overwritten -/
+theorem C15_heap_verificator_key_separated (n : Nat) (s : Store) (hc : Closed s) (v tc : Addr)
+    (hl : ∀ hdr, headerOf s tc = some hdr → KidsAreLeaves s hdr)
+    (key : Addr) (s' : Store) (h : (verificatorAddTc v tc).run s = some (key, s')) (hvs : v < s.length) (b : Addr)
+    (hb : b < s.length) (hv : v ∉ reachN n s b) :
+    Disjoint (reachN n s' key) (reachN n s' b) ∧ viewN n s' b = viewN n s b := by
+  unfold verificatorAddTc at h
+  obtain ⟨hdr, s1, h1, h2⟩ := (run_bind_some _ _ _ _ _).mp h
+  obtain ⟨⟨ct, hct, hr⟩, e⟩ := (ref_run _ _ _ _ _).mp h1
+  subst s1
+  obtain ⟨rid, s2, h3, h4⟩ := (run_bind_some _ _ _ _ _).mp h2
+  obtain ⟨ch, pid, psc, cp, cq, ver, hch, hpid, hpsc, _, hcp, hcq, rfl, rfl⟩ := reqIdFromSpHeader_shape s hdr rid s2 h3
+  have hql : psc < s.length := closed_kid_lt hc hch (kid_of_ref hpsc)
+  rw [List.getElem?_append_left hql] at hcq
+  have hlv := hl hdr (by simp [headerOf, hct, hr])
+  have hkp : cp.kids = [] := leaf_kids (hlv pid (by simp [hch, kid_of_ref hpid])) hcp
+  have hkq : cq.kids = [] := leaf_kids (hlv psc (by simp [hch, kid_of_ref hpsc])) hcq
+  obtain ⟨st, s3, h5, h6⟩ := (run_bind_some _ _ _ _ _).mp h4
+  obtain ⟨rfl, rfl⟩ := (new_run _ _ _ _).mp h5
+  obtain ⟨cv, s4, h7, h8⟩ := (run_bind_some _ _ _ _ _).mp h6
+  obtain ⟨hcv, e⟩ := (cellAt_run _ _ _ _).mp h7
+  subst s4
+  obtain ⟨u, s5, h9, h10⟩ := (run_bind_some _ _ _ _ _).mp h8
+  obtain ⟨hvl, e⟩ := (put_run _ _ _ _ _).mp h9
+  subst s5
+  obtain ⟨rfl, rfl⟩ := (pure_run _ _ _ _).mp h10
+  -- the store before the tracker is updated: s ++ t
+  have happ : s ++ [cp, cq, ⟨.requestId, [some s.length, some (s.length + 1)], [ver]⟩] ++ [⟨.verifStatus, [], [0, 0, 0, 0, 0]⟩]
+      = s ++ [cp, cq, ⟨.requestId, [some s.length, some (s.length + 1)], [ver]⟩, ⟨.verifStatus, [], [0, 0, 0, 0, 0]⟩] := by simp
+  rw [happ] at hcv hvl ⊢
+  have ht : ∀ c ∈ [cp, cq, (⟨.requestId, [some s.length, some (s.length + 1)], [ver]⟩ : Cell), ⟨.verifStatus, [], [0, 0, 0, 0, 0]⟩],
+      ∀ r ∈ c.kids, s.length ≤ r := by
+    intro c hcm r hrk
+    simp only [List.mem_cons, List.not_mem_nil, or_false] at hcm
+    rcases hcm with rfl | rfl | rfl | rfl
+    · simp [hkp] at hrk
+    · simp [hkq] at hrk
+    · simp [Cell.kids] at hrk; rcases hrk with rfl | rfl <;> simp
+    · simp [Cell.kids] at hrk
+  have hst : Steps [v] s ((s ++ [cp, cq, ⟨.requestId, [some s.length, some (s.length + 1)], [ver]⟩, ⟨.verifStatus, [], [0, 0, 0, 0, 0]⟩]).set v
+      { cv with refs := cv.refs ++ [some (s.length + 2), some (s ++ [cp, cq, ⟨.requestId, [some s.length, some (s.length + 1)], [ver]⟩]).length] }) :=
+    .write v _ (.alloc _ (.refl s)) (by simp)
+  obtain ⟨hview, hreach, _⟩ := C11_heap_steps_frame hst n b (C11_heap_reach_closed n s b hc hb) (by simpa using hv)
+  refine ⟨?_, hview⟩
+  intro x hx hx'
+  rw [hreach] at hx'
+  have hlt := C11_heap_reach_closed n s b hc hb x hx'
+  have hfresh := C11_heap_fresh_reach n s _ (s.length + 2) ht (by omega)
+  have hvn : v ∉ reachN n (s ++ [cp, cq, ⟨.requestId, [some s.length, some (s.length + 1)], [ver]⟩, ⟨.verifStatus, [], [0, 0, 0, 0, 0]⟩]) (s.length + 2) :=
+    fun hm => Nat.lt_irrefl _ (Nat.lt_of_lt_of_le hvs (hfresh v hm))
+  rw [C11_heap_frame_reach n _ (s.length + 2) v _ hvn] at hx
+  exact Nat.lt_irrefl _ (Nat.lt_of_lt_of_le hlt (hfresh x hx))
+
 /-! ### constructors and factories KEEP the caller's object (general; stated as what the code does) -/
 
 /-- `EofPdu(conf, …, fault_location=t)`, `NakPdu(conf, …, segment_requests=l)`, `MetadataPdu(conf, params, options)`,
